@@ -43,7 +43,10 @@ from arim import geometry as g  # noqa: E402
 
 drv = arimgen.Driver(chk.ocaml_driver("C17"))
 rng = chk.rng
-Q = chk.tier == "quick"
+# second tie: geometry.norm2 / rotation_matrix_x,y,z / spherical coordinates are re-translated from the current
+# source and checked convertible with the model; a broken tie deepens the correspondence run (thorough sizes)
+_ties = chk.translation_tie()
+Q = chk.tier == "quick" and all(v == "ok" for v in _ties.values())
 TOL = 1e-11
 evaluations = 0
 nontrivial = set()
